@@ -37,7 +37,12 @@ fn ln_ratio(x: f64, s: f64) -> f64 {
     if x < 2.0 * s && x > 0.5 * s {
         ln_1p((x - s) / s)
     } else {
-        (x / s).ln()
+        let r = x / s;
+        if r < 1e-290 || r > 1e290 {
+            x.ln() - s.ln()
+        } else {
+            r.ln()
+        }
     }
 }
 
@@ -165,6 +170,10 @@ impl NigK {
         }
         let t0 = 0.5 * (lo + hi);
         let f0 = f(t0);
+        if !(f0 > -740.0) {
+            // the bracket holds every contribution above 1e-365; its maximum underflows => 0
+            return 0.0;
+        }
         let dd = 0.02;
         let curv = -(f(t0 + dd) - 2.0 * f0 + f(t0 - dd)) / (dd * dd);
         let sig = if curv > 1e-4 { 1.0 / curv.sqrt() } else { 100.0 };
@@ -225,8 +234,8 @@ impl Cont {
                 }
                 (-exp_m1(-t), (-t).exp())
             }
-            Cont::Gamma { shape, scale } => gamma_pq(shape, x / scale),
-            Cont::ChiSquared { k } => gamma_pq(0.5 * k, 0.5 * x),
+            Cont::Gamma { shape, scale } => gamma_pq_scaled(shape, x, scale),
+            Cont::ChiSquared { k } => gamma_pq_scaled(0.5 * k, x, 2.0),
             Cont::StudentT { nu } => student_cs(x, nu),
             Cont::FisherF { m, n } => fisher_cs(x, m, n),
             Cont::Beta { a, b } => ibeta(a, b, x, 1.0 - x),
@@ -351,7 +360,8 @@ impl Cont {
                 if x <= 0.0 {
                     return 0.0;
                 }
-                phi_pdf((x.ln() - mu) / sigma.abs()) / (sigma.abs() * x)
+                let z = (x.ln() - mu) / sigma.abs();
+                (-0.5 * z * z - x.ln() - sigma.abs().ln() - LN_SQRT_2PI).exp()
             }
             Cont::Exp { lambda } => lambda * (-lambda * x).exp(),
             Cont::Gamma { shape, scale } => gamma_pdf(shape, x / scale) / scale,
@@ -398,20 +408,25 @@ impl Cont {
                 if x <= 0.0 {
                     return if shape < 1.0 { f64::INFINITY } else if shape == 1.0 { 1.0 / scale } else { 0.0 };
                 }
-                let t = (shape * ln_ratio(x, scale)).exp();
-                shape * t / x * (-t).exp()
+                let lt = shape * ln_ratio(x, scale);
+                (shape.ln() - x.ln() + lt - lt.exp()).exp()
             }
             Cont::Gumbel { loc, scale } => {
                 let z = (x - loc) / scale;
-                (-z - (-z).exp()).exp() / scale
+                let e = (-z).exp();
+                if e == f64::INFINITY {
+                    0.0
+                } else {
+                    (-z - e).exp() / scale
+                }
             }
             Cont::Frechet { loc, scale, shape } => {
                 let z = (x - loc) / scale;
                 if z <= 0.0 {
                     return 0.0;
                 }
-                let t = (-shape * z.ln()).exp();
-                shape * t / (z * scale) * (-t).exp()
+                let lt = -shape * z.ln();
+                (shape.ln() - z.ln() - scale.ln() + lt - lt.exp()).exp()
             }
             Cont::SkewNormal { loc, scale, shape } => {
                 let z = (x - loc) / scale;
@@ -422,7 +437,7 @@ impl Cont {
                     return 0.0;
                 }
                 let d = (x - mean) / mean;
-                (shape / (2.0 * PI * x)).sqrt() / x * (-0.5 * shape * d * d / x).exp()
+                (0.5 * (shape / (2.0 * PI)).ln() - 1.5 * x.ln() - 0.5 * shape * d * d / x).exp()
             }
             Cont::Nig { alpha, beta } => {
                 let gamma = ((alpha - beta) * (alpha + beta)).sqrt();
